@@ -400,7 +400,10 @@ class World:
             else:
                 raise ValueError(kind)
         except Exception as e:  # noqa: BLE001
-            return ["err", self.log.take(), classify(e)]
+            log = self.log.take()
+            if isinstance(e, RecursionError):
+                log = log[:2] + ["..."]  # depth reached depends on the caller's own stack depth
+            return ["err", log, classify(e)]
 
 
 def handler_token(h):
